@@ -124,7 +124,14 @@ func (c *FuncCtx) execRangeMapImpl(st *State, x *ast.RangeStmt, coll *Val, li *l
 	i, j, kk := c.bvar("i"), c.bvar("j"), c.bvar("k")
 	st.assume(fmt.Sprintf("(forall ((%s Int)) (=> (and (<= 0 %s) (< %s %s)) (select %s (select %s %s))))", i, i, i, n, dom, seqArr, i))
 	st.assume(fmt.Sprintf("(forall ((%s Int) (%s Int)) (=> (and (<= 0 %s) (< %s %s) (< %s %s)) (not (= (select %s %s) (select %s %s)))))", i, j, i, i, j, j, n, seqArr, i, seqArr, j))
-	st.assume(fmt.Sprintf("(forall ((%s %s)) (=> (select %s %s) (exists ((%s Int)) (and (<= 0 %s) (< %s %s) (= (select %s %s) %s)))))", kk, ks, dom, kk, i, i, i, n, seqArr, i, kk))
+	// "every key occurs" is only stated where the loop has finished: inside the
+	// body it is not needed and its forall-exists shape sends the solvers into
+	// long instantiation chains (leaving a hypothesis out is sound)
+	posFn := c.fresh(fmt.Sprintf("mpos_%d", li.ord), "Int")
+	// (declared as a constant by fresh; re-declare as a function)
+	c.decls[len(c.decls)-1] = fmt.Sprintf("(declare-fun %s (%s) Int)", posFn, ks)
+	everyKey := fmt.Sprintf("(forall ((%s %s)) (! (=> (select %s %s) (and (<= 0 (%s %s)) (< (%s %s) %s) (= (select %s (%s %s)) %s))) :pattern ((select %s %s))))", kk, ks, dom, kk, posFn, kk, posFn, kk, n, seqArr, posFn, kk, kk, dom, kk)
+	_ = i
 	keysT := types.NewSlice(mt.Key())
 	ksrt := c.eng.sortOf(keysT)
 	li.extra[fmt.Sprintf("mkeys_%d", li.ord)] = &Val{T: keysT, S: app("mk_"+ksrt, seqArr, "0", n, tFalse), Sort: ksrt}
@@ -139,6 +146,7 @@ func (c *FuncCtx) execRangeMapImpl(st *State, x *ast.RangeStmt, coll *Val, li *l
 	var outs []outcome
 	e := h.clone()
 	e.assume(mkEq(k, n))
+	e.assume(everyKey)
 	outs = append(outs, outcome{oNext, e})
 	b := h.clone()
 	b.assume(app("<", k, n))
@@ -148,6 +156,9 @@ func (c *FuncCtx) execRangeMapImpl(st *State, x *ast.RangeStmt, coll *Val, li *l
 	val := c.val(mkSel(acc("val_"+coll.Sort, coll.S), key.S), mt.Elem())
 	b.assume(mkSel(dom, key.S))
 	b.assume(c.eng.typeFacts(val.S, val.T))
+	// trusted data-structure invariant (wf nonnil-elements): the tables of the
+	// parser hold no nil entry under a key that is present
+	c.wfElem(b, val)
 	if x.Key != nil {
 		c.bindRangeVar(b, x.Key, key, x.Tok)
 	}
